@@ -69,6 +69,8 @@ def gen_cases(tier, seed):
         enc = "raw"
         if cfg["data_type"] == "uint32" and rnd.random() < 0.7:
             enc = "compressed_segmentation"   # the encoder hands over a bytearray
+        elif cfg["data_type"] == "uint8" and cfg["num_channels"] == 1 and rnd.random() < 0.5:
+            enc = "jpeg"      # chunks announced as image/jpeg to the accessor
         cases.append({"cfg": cfg, "subset_kind": None, "sseed": rnd.randrange(2 ** 32),
                       "oseed": rnd.randrange(2 ** 32), "encoding": enc,
                       "max_runs": 24 if tier == "quick" else 120})
@@ -133,6 +135,9 @@ def run_case(case):
            "gap_start": int(prof["start"] > 0), "gap_middle": int(prof["middle"] > 0),
            "gap_end": int(prof["end"] > 0), "strategies": {},
            "bytearray_payloads": int(case["encoding"] == "compressed_segmentation"),
+           "jpeg_payloads": int(case["encoding"] == "jpeg"),
+           "jpeg_payloads_in_gzip_shards": int(case["encoding"] == "jpeg"
+                                               and cfg["data_encoding"] == "gzip"),
            "preshift_ge_1_with_shared_minishard": int(cfg["preshift_bits"] >= 1 and shared),
            "more_than_64_shards": int(cfg["shard_bits"] >= 7 and len(subset) > 200),
            "minishard_data_over_1MiB": int(cfg["chunk"] >= 64 and len(subset) >= 5),
@@ -167,6 +172,10 @@ def run_case(case):
                         pio.write_chunk(shardlib.chunk_array(np, cfg, pos), "s0",
                                         shardlib.coords_of(cfg, pos))
                     acc.close()
+                    if (case["oseed"] + i) % 2 == 0:
+                        # (the exit handler closes once more after the caller's own close)
+                        acc.close()
+                        obs["closed_twice"] = obs.get("closed_twice", 0) + 1
                 except Exception as exc:  # noqa: BLE001
                     v.append({"kind": "writer-raised",
                               "detail": f"{ctx} strategy={strategy} order="
@@ -235,6 +244,37 @@ def run_case(case):
                           f"{[list(p) for p in order[:8]]}: {type(exc).__name__}: "
                           f"{str(exc)[:160]}"})
             shutil.rmtree(d, ignore_errors=True)
+        # ---- two datasets of the same geometry written ALTERNATELY by one process (chunk by
+        # chunk, each in its own order): each must end up with the file set of a lone run
+        if case["sseed"] % 4 == 1 and not v and len(orders[0]) >= 2 and digests:
+            r4 = random.Random(case["oseed"] + 2)
+            o1 = list(orders[r4.randrange(len(orders))])
+            o2 = list(orders[r4.randrange(len(orders))])
+            strategy = r4.choice(("on disk", "on disk", "in memory"))
+            dirs = [os.path.join(top, "run-twin-a"), os.path.join(top, "run-twin-b")]
+            try:
+                w = [shardlib.open_writer(dd, cfg, strategy, case["encoding"]) for dd in dirs]
+                for pa, pb in zip(o1, o2):
+                    for (pio_, _acc), pos in ((w[0], pa), (w[1], pb)):
+                        pio_.write_chunk(shardlib.chunk_array(np, cfg, pos), "s0",
+                                         shardlib.coords_of(cfg, pos))
+                for _pio, acc_ in w:
+                    acc_.close()
+                obs["datasets_written_alternately"] = 1
+                for dd in dirs:
+                    dg, _names = shardlib.tree_digest(os.path.join(dd, "s0"), ".shard")
+                    if dg not in digests:
+                        v.append({"kind": "shard-files-depend-on-order-or-strategy",
+                                  "detail": f"{ctx} strategy={strategy}: two datasets written "
+                                  "alternately by one process: the files of "
+                                  f"{os.path.basename(dd)} differ from those of a lone run"})
+                        break
+            except Exception as exc:  # noqa: BLE001
+                v.append({"kind": "writer-raised",
+                          "detail": f"{ctx} strategy={strategy}: two datasets written "
+                          f"alternately: {type(exc).__name__}: {str(exc)[:160]}"})
+            for dd in dirs:
+                shutil.rmtree(dd, ignore_errors=True)
         if len(digests) > 1:
             ex = [x[0] for x in digests.values()]
             v.append({"kind": "shard-files-depend-on-order-or-strategy",
@@ -265,7 +305,10 @@ def run_case(case):
                         break
                     pos = tuple(c // cfg["chunk"] for c in coords[0::2])
                     arr = pio2.read_chunk("s0", coords)
-                    if not np.array_equal(arr, shardlib.chunk_array(np, cfg, pos)):
+                    # (a lossy encoding gives back other voxel values by design: the bytes
+                    # compared above are what the property is about)
+                    if case["encoding"] != "jpeg" and not np.array_equal(
+                            arr, shardlib.chunk_array(np, cfg, pos)):
                         v.append({"kind": "decoded-chunk-differs",
                                   "detail": f"{ctx}: coords {coords}"})
                         break
@@ -324,6 +367,9 @@ def gates(obs, tier):
         "preshift_with_shared_minishard": obs.get("preshift_ge_1_with_shared_minishard", 0) > 0,
         "identifiers_beyond_2_32": obs.get("identifiers_ge_2_32", 0) > 0,
         "identifiers_beyond_2_53": obs.get("identifiers_gt_2_53", 0) > 0,
+        "accessors_closed_twice": obs.get("closed_twice", 0) > 100,
+        "datasets_written_alternately": obs.get("datasets_written_alternately", 0) > 20,
+        "jpeg_payloads_in_gzip_shards": obs.get("jpeg_payloads_in_gzip_shards", 0) > 3,
         "more_than_64_shards_in_a_scale": obs.get("more_than_64_shards", 0) > 0,
         "megabyte_minishards": obs.get("minishard_data_over_1MiB", 0) > 0,
         "resubmitted_chunks_refused_and_accepted": obs.get("resubmissions_refused", 0) > 10
